@@ -4,13 +4,13 @@ from rules import payload as O
 
 
 def run(ctx):
-    M.tbl4_decode_siblings(ctx)
-    M.tbl5_compaction_dispatch(ctx)
-    M.flw2_compaction_covers_names(ctx)
-    O.opt1_shared_optional_payload(ctx)
-    M.lit2_catalogue_literals(ctx)
-    M.nul1_null_map_never_ignored(ctx)
-    M.nul2_bitmap_ones_fill_whole_bytes_only(ctx)
+    ctx.run(M.tbl4_decode_siblings)
+    ctx.run(M.tbl5_compaction_dispatch)
+    ctx.run(M.flw2_compaction_covers_names)
+    ctx.run(O.opt1_shared_optional_payload)
+    ctx.run(M.lit2_catalogue_literals)
+    ctx.run(M.nul1_null_map_never_ignored)
+    ctx.run(M.nul2_bitmap_ones_fill_whole_bytes_only)
     return ctx.finish(
         'Static rules on the compaction path, which re-encodes every column through a second decode '
         'routine the query path never uses: that routine handles every codec op and every '
